@@ -143,4 +143,40 @@ Section PlayerView.
       rewrite gv_resume, gv_set_last, gv_pay, gv_with_st. apply gv_upd. intros p. now rewrite Hacted, Hdid.
     - unfold act_pay. destruct (negb _); [reflexivity|]. cbn [fst]. rewrite gv_resume, gv_set_last. apply gv_pay.
   Qed.
+
+  (* dealing the hole cards, for a projection that does not read them *)
+  Lemma gv_enter_preflop g : (forall p h, phi (p_set_hole p h) = phi p) -> gv (fst (enter_preflop g)) = gv g.
+  Proof.
+    intros Hh. unfold enter_preflop. destruct (negb (deck_has g _)); [reflexivity|].
+    assert (G : forall ps deck h, map phi (deal_holes ps deck h) = map phi ps).
+    { induction ps as [|p t IH]; intros deck h; simpl; [reflexivity|]. now rewrite Hh, IH. }
+    destruct (_ && _); cbn [fst]; rewrite ?gv_prepare_round, ?gv_set_event, gv_update_combs; unfold gv; simpl; apply G.
+  Qed.
+
+  (* every operation *)
+  Lemma gv_step g o : (forall p h, phi (p_set_hole p h) = phi p) -> gv (fst (step g o)) = gv g.
+  Proof.
+    intros Hh. destruct o as [| | | |who a x]; cbn [step].
+    - unfold do_ready. destruct (negb _); [reflexivity|].
+      destruct (st_round (g_st (reset_all g))); cbn [fst]; try (rewrite gv_start_round; apply gv_reset_all).
+      destruct (0 <? _); cbn [fst]; [rewrite gv_set_event|rewrite gv_enter_preflop by exact Hh]; apply gv_reset_all.
+    - unfold do_pay_ante. destruct (_ =? 0); [reflexivity|]. destruct (negb _); [reflexivity|].
+      pose proof (gv_ante_loop (player_order g) g) as H. destruct (ante_loop (player_order g) g) as [g1 [|]]; cbn [fst] in *; [|exact H].
+      rewrite gv_enter_preflop by exact Hh. rewrite gv_reset_round_status, gv_reset_all_status, gv_update_pots, gv_reset_all. exact H.
+    - unfold do_pay_blinds. destruct (negb _); [reflexivity|]. cbn [fst].
+      rewrite gv_prepare_round, gv_reset_all, gv_with_st. apply gv_fold_pay_blind.
+    - unfold do_next. destruct (negb _); [reflexivity|].
+      set (g0 := set_last g (-1) LNext 0). set (g1 := reset_all_status (reset_round_status g0)).
+      assert (H1 : gv g1 = gv g) by (unfold g1, g0; now rewrite gv_reset_all_status, gv_reset_round_status, gv_set_last).
+      set (guard := fun res : gstate * outcome => match res with (_, Panic) => (g, Panic) | x => x end).
+      assert (Hgc : gv (fst (guard (game_completed g1))) = gv g).
+      { unfold guard. pose proof (gv_game_completed g1) as H. destruct (game_completed g1) as [g2 o2]. cbn [fst] in H.
+        destruct o2; cbn [fst]; try (rewrite H; exact H1); reflexivity. }
+      assert (Hst : forall r, gv (fst (guard (enter_street g1 r))) = gv g).
+      { intros r. unfold guard. pose proof (gv_enter_street g1 r) as H. destruct (enter_street g1 r) as [g2 o2]. cbn [fst] in H.
+        destruct o2; cbn [fst]; try (rewrite H; exact H1); reflexivity. }
+      destruct (st_round (g_st g0)); [reflexivity| | | |];
+        destruct (Nat.eqb (alive_count g1) 1); try exact Hgc; apply Hst.
+    - destruct (negb _); [reflexivity|]. apply gv_act.
+  Qed.
 End PlayerView.
